@@ -204,7 +204,7 @@ static double Kmomentum(int integ, int ai) {
     if (integ == I_RKM) return 4e5;                      // worst 3323
     return 1.3e6;                                        // RKF 1e-7: worst 12020
 }
-static const double K_EULER = 0.3;          // ExplicitEuler sanity row (h = 1e-5, gravity only): |dE| <= 0.3 * Escale; worst 2.3e-3
+static const double K_EULER = 0.5;          // ExplicitEuler sanity row (h = 1e-5, gravity only): |dE| <= 0.5 * Escale; worst 3.3e-3
 
 int main(int argc, char** argv) {
     verif::Run run("C11", argc, argv);
